@@ -888,7 +888,8 @@ def _gen_exec_script(
     return exec_script
 
 
-head_or_body_end_tag_re = re.compile(r"<\/(?:head|body)\s*>", re.DOTALL)
+# NOTE: HTML tag names are case-insensitive (`</HEAD>`, `</Body>`)
+head_or_body_end_tag_re = re.compile(r"<\/(?:head|body)\s*>", re.DOTALL | re.IGNORECASE)
 
 
 def _insert_js_css_to_default_locations(
@@ -913,7 +914,7 @@ def _insert_js_css_to_default_locations(
 
     # First check the content for the first `</head>` and last `</body>` tags
     for match in head_or_body_end_tag_re.finditer(html_content):
-        tag_name = match[0][2:6]
+        tag_name = match[0][2:6].lower()
 
         # We target the first `</head>`, thus, after we set it, we skip the rest
         if tag_name == "head":
